@@ -25,11 +25,12 @@ from ..engine import report
 def apply_variant(sources, v):
     edits = v.get("edits") or [(v["file"], v["old"], v["new"])]
     out = dict(sources)
-    for file, old, new in edits:
+    for e in edits:
+        file, old, new = e[:3]
         src = out.get(file)
         if src is None:
             return None
-        cnt = v.get("count", 1)
+        cnt = e[3] if len(e) > 3 else v.get("count", 1)
         if src.count(old) != cnt:
             return None
         out[file] = src.replace(old, new)
